@@ -27,10 +27,29 @@ def numeric_value(v):
     return v and v.get("t") in ("int", "float", "uuid")
 
 
-def zone(spec, text):
-    """must_accept / must_reject / dontcare for one field (spec = answer of spec.domain/spec.line)."""
+_ANYTEXT = {}
+
+
+def any_text_ok(ann, name):
+    """The column's class takes a name OR a number (StringOrIntegerColumn, StringIntegerOrFloatColumn): whether the host's
+    parsers read a text as a number or not, the field is in the domain - only the VALUE it denotes is the host's business."""
+    if (ann, name) not in _ANYTEXT:
+        sch = impl.scheme_by_annotation(ann)
+        try:
+            mro = [c.__name__ for c in sch.column_class(name).__mro__]
+        except Exception:  # noqa
+            mro = []
+        _ANYTEXT[(ann, name)] = "StringOrIntegerColumn" in mro or "StringIntegerOrFloatColumn" in mro
+    return _ANYTEXT[(ann, name)]
+
+
+def zone(spec, text, anytext=False):
+    """must_accept / must_reject / dontcare for one field (spec = answer of spec.domain/spec.line); accept_any = in the
+    domain whatever the host's parsers make of it (the value is not judged)."""
     pieces = [text] + text.split(";")
     if any(colcases.dontcare_numeric(p) or colcases.dontcare_uuid(p) for p in pieces):
+        if anytext and spec.get("in") and text and len(text) < 4000:
+            return "accept_any"
         return "dontcare"
     if spec.get("in"):
         v = spec.get("value")
@@ -132,7 +151,7 @@ def eval_field(r, m, s):
     domain `s` (answer of spec.domain).  `m` is the model's answer to `r` (only reported, not part of the oracle)."""
     i = impl.run(r)
     text = r["text"]
-    z = zone(s, text)
+    z = zone(s, text, any_text_ok(r["scheme"], r["col"]))
     accepted = "col" in i and i["col"]["invalid"] is False and i["col"]["cls"] != "MafColumnRecord"
     # the scheme-level instance check is part of acceptance: a plain MafColumnRecord built by a
     # class that inherits MafColumnRecord.build is rejected by from_line (checked in line cases)
@@ -145,6 +164,11 @@ def eval_field(r, m, s):
         elif i["col"]["value"] != s["value"]:
             fails.append(dict(where, what="accepted field does not carry the value the text denotes",
                               kind="wrong-value", expected=s["value"], got=i["col"]["value"]))
+    elif z == "accept_any":
+        if not accepted:
+            fails.append(dict(where, what="field in the documented domain is rejected (the column takes a name or a number: every text is one or the other)", kind="reject-valid",
+                              expected=s, got=i))
+        z = "dontcare"          # (for the correspondence and the statistics the case stays what it was)
     elif z == "must_reject":
         if accepted:
             fails.append(dict(where, what="field outside the documented domain is accepted", kind="accept-invalid",
@@ -156,7 +180,7 @@ def check_line(fails, ann, line, mode, lineno, i, s, names, history=None):
     """Property oracle for one parsed line on the implementation's answer `i` (spec answer `s`); failures are
     appended to `fails`.  `history` = the layouts lines were parsed under earlier in this process (first-use order)."""
     fields = line.rstrip("\r\n").split("\t")
-    zones = [zone(f, t) for f, t in zip(s["fields"], fields)] if s["count_ok"] else []
+    zones = [zone(f, t, any_text_ok(ann, n)) for f, t, n in zip(s["fields"], fields, names)] if s["count_ok"] else []
     where = {"scheme": ann, "line": line, "mode": mode, "lineno": lineno, "after_schemes": list(history or [])}
     if not s["count_ok"]:
         ok = ("exc" in i and i["exc"].startswith("MafFormatException:RECORD_MISMATCH_NUMBER_OF_COLUMNS")) if mode == "Strict" \
@@ -167,7 +191,7 @@ def check_line(fails, ann, line, mode, lineno, i, s, names, history=None):
     if "dontcare" in zones:
         # the verdict on the whole line is open; per-field binding of the must-accept fields is still checked
         pass
-    all_accept = all(z == "must_accept" for z in zones)
+    all_accept = all(z in ("must_accept", "accept_any") for z in zones)
     any_reject = any(z == "must_reject" for z in zones)
     if mode == "Strict":
         if all_accept and "exc" in i:
@@ -193,6 +217,11 @@ def check_line(fails, ann, line, mode, lineno, i, s, names, history=None):
             if slot is None or slot["key"] != names[k] or slot["index"] != k or slot["value"] != f["value"]:
                 fails.append(dict(where, what="field %d is not bound to its column name with the value the text denotes" % k,
                                          kind="binding", column=names[k], text=t, expected=f["value"], got=slot))
+                break
+        elif z == "accept_any":
+            if slot is None or slot["key"] != names[k] or slot["index"] != k:
+                fails.append(dict(where, what="field %d (a name or a number: in the domain whatever the text) is not bound to its column name" % k,
+                                         kind="binding", column=names[k], text=t, got=slot))
                 break
         elif z == "must_reject":
             if slot is not None:
